@@ -346,7 +346,20 @@ def r4_error_isolation(w):
         sw = b.succs(h)[0] if b.succs(h) else None
         exits = [(x, s) for x in sorted(blocks) for s in b.succs(x) if s not in blocks and not b.blocks[s]['cleanup']
                  and not (b.blocks[s]['term']['t'] == 'unreachable' and not b.blocks[s]['stmts'])]
-        bad = [(x, s) for (x, s) in exits if x != sw]
+        # a header rewritten from `adaptor.next()` to `inner.next()` (inline.py): the loop is also left where the rewritten code answers `None` for the
+        # adaptor - the test of the inner result, and the original test of the adaptor's result (which only the None answer leaves)
+        ok_src = {sw}
+        ht = b.blocks[h]['term']
+        if ht.get('orig_dests'):
+            ok_src |= set(ht.get('exhaust_blocks', []))
+            for x in blocks:
+                xt = b.blocks[x]['term']
+                if xt['t'] == 'switch' and xt['discr'].get('o') in ('move', 'copy'):
+                    dl = xt['discr']['p']['l']
+                    defs = [st['rv'] for blk2 in b.blocks for st in blk2['stmts'] if st['s'] == 'assign' and st['p']['l'] == dl and not st['p']['proj']]
+                    if defs and all(rv.get('r') == 'discr' and rv['p']['l'] in ht['orig_dests'] and not rv['p']['proj'] for rv in defs):
+                        ok_src.add(x)
+        bad = [(x, s) for (x, s) in exits if x not in ok_src]
         cons = {'fn': b.short, 'loop_header': h, 'exits': exits}
         if bad:
             r.bad(cons, '%s|early-exit' % b.short,
